@@ -6,6 +6,7 @@ import (
 	"errors"
 	"fmt"
 	"io"
+	"sort"
 	"sync"
 
 	"github.com/godaddy/asherah/go/securememory"
@@ -50,10 +51,12 @@ type SecretInfo struct {
 // contract (copy-and-wipe on New, error after Close, Close waits for readers)
 // and accounts for every secret.
 type Tracker struct {
-	mu      sync.Mutex
-	secrets []*trackedSecret
-	seq     int
-	Tag     string
+	mu             sync.Mutex
+	secrets        []*trackedSecret
+	live           map[int]*trackedSecret
+	readAfterClose []*trackedSecret
+	seq            int
+	Tag            string
 	// FailAt: the k-th creation call (0-based over New+CreateRandom) fails when FailAt[k] is set.
 	FailAt map[int]bool
 	calls  int
@@ -75,7 +78,7 @@ type trackedSecret struct {
 }
 
 // NewTracker returns an empty tracking factory.
-func NewTracker() *Tracker { return &Tracker{FailAt: map[int]bool{}} }
+func NewTracker() *Tracker { return &Tracker{FailAt: map[int]bool{}, live: map[int]*trackedSecret{}} }
 
 // ErrAlloc is returned by injected allocation failures.
 var ErrAlloc = errors.New("verif: injected secret allocation failure")
@@ -91,6 +94,7 @@ func (t *Tracker) create(origin string, content []byte, inner securememory.Secre
 	}
 	s.cond = sync.NewCond(&s.mu)
 	t.secrets = append(t.secrets, s)
+	t.live[info.ID] = s
 	return s
 }
 
@@ -161,6 +165,7 @@ func (s *trackedSecret) access() error {
 	s.t.mu.Lock()
 	if s.closing || s.closed {
 		s.info.ReadsAfterClose++
+		s.t.readAfterClose = append(s.t.readAfterClose, s)
 		s.t.mu.Unlock()
 		return errClosed
 	}
@@ -232,6 +237,7 @@ func (s *trackedSecret) Close() error {
 	s.closed = true
 	s.t.mu.Lock()
 	s.info.Closed++
+	delete(s.t.live, s.info.ID)
 	s.t.seq++
 	s.info.ClosedSeq = s.t.seq
 	s.t.mu.Unlock()
@@ -274,31 +280,42 @@ func (t *Tracker) Infos() []SecretInfo {
 // Count returns the number of secrets ever created.
 func (t *Tracker) Count() int { t.mu.Lock(); defer t.mu.Unlock(); return len(t.secrets) }
 
-// Live returns the infos of secrets not yet closed.
+// Live returns the infos of secrets not yet closed (ordered by id).
 func (t *Tracker) Live() []SecretInfo {
 	t.mu.Lock()
 	defer t.mu.Unlock()
-	var res []SecretInfo
-	for _, s := range t.secrets {
-		if s.info.Closed == 0 {
-			res = append(res, *s.info)
-		}
+	res := make([]SecretInfo, 0, len(t.live))
+	for _, s := range t.live {
+		res = append(res, *s.info)
 	}
+	sort.Slice(res, func(i, j int) bool { return res[i].ID < res[j].ID })
 	return res
 }
 
 // LiveCount returns the number of live secrets.
-func (t *Tracker) LiveCount() int { return len(t.Live()) }
+func (t *Tracker) LiveCount() int { t.mu.Lock(); defer t.mu.Unlock(); return len(t.live) }
+
+// InfosRange returns a copy of the accounting records with ids in [from, to).
+func (t *Tracker) InfosRange(from, to int) []SecretInfo {
+	t.mu.Lock()
+	defer t.mu.Unlock()
+	if to > len(t.secrets) {
+		to = len(t.secrets)
+	}
+	res := make([]SecretInfo, 0, to-from)
+	for _, s := range t.secrets[from:to] {
+		res = append(res, *s.info)
+	}
+	return res
+}
 
 // ReadsAfterClose returns the infos of secrets that were accessed after Close.
 func (t *Tracker) ReadsAfterClose() []SecretInfo {
 	t.mu.Lock()
 	defer t.mu.Unlock()
 	var res []SecretInfo
-	for _, s := range t.secrets {
-		if s.info.ReadsAfterClose > 0 {
-			res = append(res, *s.info)
-		}
+	for _, s := range t.readAfterClose {
+		res = append(res, *s.info)
 	}
 	return res
 }
